@@ -544,10 +544,9 @@ func (rt *runtime) convertCallParameter(v Value, t reflect.Type) (reflect.Value,
 					}
 				}
 
-				rv, err := v.Call(nullValue, l...)
-				if err != nil {
-					panic(err)
-				}
+				// Not Value.Call: an exception thrown by the function has to reach
+				// the script (or the API boundary) as the value that was thrown.
+				rv := v.call(rt, nullValue, l...)
 
 				if t.NumOut() == 0 {
 					return nil
